@@ -478,6 +478,23 @@ def tiny_cases(length, part, parts, with_rejected=True, geometries=None):
             idx += 1
 
 
+def partial_fill_cases():
+    """Deterministic: sets that are only PARTLY filled, with the tag-0 block (addresses from 0 upwards, reachable on a
+    full-range memory) arriving as the 1st, 2nd, ... fill, for both policies (tree-PLRU fills the ways out of index order),
+    2/4/8 ways, both write policies; every resident block is then re-read, the tag-0 block written and read back."""
+    for ways, repl, typ, (idx, blk) in itertools.product((2, 4, 8), ("lru", "plru"), ("wb", "wt"), ((0, 0), (1, 1))):
+        cfg = {"idx": idx, "blk": blk, "ways": ways, "type": typ, "repl": repl, "pen": 1, "lo": 0}
+        stride = (1 << idx) * (4 << blk)
+        others = list(range(1, ways))
+        for pos in range(min(ways - 1, 4) + 1):
+            order = others[:pos] + [0] + others[pos:]
+            for fill in range(pos + 1, len(order) + 1):
+                sel = order[:fill]
+                ops = [["r", 4, t * stride, True] for t in sel] * 2 + [["w", 4, 0, 0xABCD0123], ["r", 4, 0, True]] \
+                    + [["r", 1, t * stride + 1, False] for t in sel] + [["w", 2, 2, 0x7788], ["r", 4, 0, True]]
+                yield {"cfg": cfg, "pre": [[0, 0x11], [stride, 0x22]], "ops": ops}
+
+
 def corpus():
     wb = {"idx": 0, "blk": 0, "ways": 1, "type": "wb", "repl": "lru", "pen": 2}
     wt = {"idx": 0, "blk": 1, "ways": 2, "type": "wt", "repl": "lru", "pen": 1}
